@@ -713,11 +713,16 @@ func genRetriedFlows(r *rng, thorough bool, emit func(FlowScenario)) {
 			budget = 1
 		}
 		leaf := LeafCfg{Retryable: true, Budget: 1, Fb: "pass", PrepS: "direct", ExecS: "direct", PostS: "direct"}
+		if i%2 == 0 {
+			// the start node has a retry budget and a ONE-HOUR wait of its own, and succeeds at its first attempt every time:
+			// there is no wait before a first attempt, whatever attempt the enclosing flow is at
+			leaf.Budget, leaf.Wait = 2, 3600000
+		}
 		sc.Nodes = append(sc.Nodes, NodeDef{ID: sID, Leaf: &leaf},
 			NodeDef{ID: rID, Flow: &FlowDef{Start: ip(sID), Ops: []Conn{{Src: sID, Action: "go", Dst: ip(inner)}}}})
 		t := &tokGen{r: r, next: 40 + r.intn(20), errN: 40}
 		for v := 0; v <= budget+1; v++ {
-			ls := t.leafScript(sID, v, true, 1, 1, true, "=go")
+			ls := t.leafScript(sID, v, true, 1, leaf.Budget+1, true, "=go")
 			sc.LeafScripts = append(sc.LeafScripts, ls)
 		}
 		sc.Steps = []Step{{Run: ip(rID)}}
